@@ -23,6 +23,7 @@ from exabgp.bgp.message.update.nlri.bgpls.tlvs.node import NodeDescriptor
 from exabgp.bgp.message.update.nlri.qualifier.path import PathInfo
 from exabgp.bgp.message.update.nlri.qualifier.rd import RouteDistinguisher
 from exabgp.logger import lazymsg, log
+from exabgp.protocol.family import SAFI
 from exabgp.util.types import Buffer
 
 # BGP-LS Link TLV type codes (RFC 7752)
@@ -95,7 +96,7 @@ class LINK(BGPLS):
             route_d: Route Distinguisher (for VPN SAFI), NORD if none
             addpath: AddPath path identifier
         """
-        BGPLS.__init__(self, addpath)
+        BGPLS.__init__(self, addpath, SAFI.bgp_ls_vpn if route_d else SAFI.bgp_ls)
         self._packed = packed
         self.route_d: RouteDistinguisher = route_d
 
